@@ -179,6 +179,14 @@ def run_load(ctx, spec, text, origin='replay'):
             call('BytesIO-utf16', lambda: (
                 io.BytesIO(text.encode('utf-16')), None))
             call('bytes', lambda: (data, None))
+            # the same document in a file that starts with a byte order
+            # mark (what an editor set to "UTF-8 with BOM" / "UTF-16" saves)
+            for nm, enc in (('Path-utf8-bom', b'\xef\xbb\xbf' + data),
+                            ('Path-utf16', text.encode('utf-16'))):
+                p2 = workfile()
+                with open(p2, 'wb') as f:
+                    f.write(enc)
+                call(nm, lambda: (pathlib.Path(p2), None))
         ctx.count('load_file_based')
     call('StringIO', lambda: (io.StringIO(text), None))
 
@@ -221,6 +229,183 @@ def run_load(ctx, spec, text, origin='replay'):
     if len(ctx.samples) < 2 and base[0] == 'ok' and len(results) >= 5:
         ctx.sample({'document': text[:200], 'sources': sorted(results),
                     'outcome': short_d(db)}, 'load')
+
+
+def run_load_bytes(ctx, spec, data, origin='replay'):
+    """A document given as bytes that are no valid UTF-8/16/32 text (or
+    valid ones, as a control): there is no str kind; bytes, binary streams
+    and a Path to a file with those bytes must agree."""
+    m = H.model_of(spec)
+    case = {'kind': 'load_bytes', 'spec': spec, 'hex': data.hex()}
+    try:
+        load = m.load_fn()
+    except Exception:
+        ctx.count('load_function_creation_failed')
+        return
+    path = workfile()
+    with open(path, 'wb') as f:
+        f.write(data)
+    results = {}
+    tf = [None]
+
+    def mk_bin():
+        tf[0] = open(path, 'rb')
+        return tf[0]
+    for name, make in (('bytes', lambda: data),
+                       ('BytesIO', lambda: io.BytesIO(data)),
+                       ('binfile', mk_bin),
+                       ('Path', lambda: pathlib.Path(path))):
+        src = make()
+        m.reset()
+        r, fd_ok, fdinfo = outcome(load, src)
+        if tf[0] is not None:
+            tf[0].close()
+            tf[0] = None
+        elif not fd_ok:
+            ctx.violation(
+                'C12 load descriptor-left-open source=%s %s' % (name, r[0]),
+                'open descriptors before %s after %s (bytes %r)' % (
+                    fdinfo[0], fdinfo[1], data[:60]), case)
+        ctx.count('load_source_calls')
+        results[name] = r
+    base = results['bytes']
+    db = load_digest(*base)
+    for name, r in results.items():
+        d = load_digest(*r)
+        if d != db:
+            ctx.violation(
+                'C12 load outcome-differs source=%s vs bytes (%s vs %s) '
+                'undecodable-or-odd-bytes' % (name, short_d(d), short_d(db)),
+                'bytes %r (%s): bytes give %s, %s gives %s' % (
+                    data[:80], origin, describe(base), name, describe(r)),
+                case)
+    ctx.count('load_bytes_cases')
+    ctx.case(['load_bytes', spec, data.hex()], True)
+
+
+LOCALE_SCRIPT = r'''
+import io, json, os, pathlib, sys, locale
+sys.path.insert(0, sys.argv[1])
+import yaml, yatiml
+from typing import Any, Dict
+work = sys.argv[2]
+out = {'encoding': locale.getpreferredencoding(False), 'cases': []}
+docs = ['x: caf\u00e9\n', 'k: \u20ac 5\n', '- \u4e2d\u6587\n- plain\n',
+        'x: "\\u00e9"\n', 'plain: ascii\n', '\u00e9: 1\n']
+load = yatiml.load_function(Any)
+dumps = yatiml.dumps_function()
+dump = yatiml.dump_function()
+dumpsj = yatiml.dumps_json_function()
+dumpj = yatiml.dump_json_function()
+
+
+def outcome(f, *a, **kw):
+    try:
+        return ['ok', f(*a, **kw)]
+    except Exception as e:
+        return ['err', type(e).__name__]
+
+
+for i, d in enumerate(docs):
+    p = pathlib.Path(work) / ('loc%d.yaml' % i)
+    p.write_bytes(d.encode('utf-8'))
+    rs = outcome(load, d)
+    rp = outcome(load, p)
+    with open(p, 'rb') as f:
+        rb = outcome(load, f)
+    out['cases'].append({'kind': 'load', 'doc': d, 'str': rs, 'Path': rp,
+                         'binfile': rb})
+    if rs[0] != 'ok':
+        continue
+    v = rs[1]
+    for name, fs, fd, kw in (('yaml', dumps, dump, {}),
+                             ('json', dumpsj, dumpj, {}),
+                             ('json-noascii', dumpsj, dumpj,
+                              {'ensure_ascii': False})):
+        want = outcome(fs, v, **kw)
+        q = pathlib.Path(work) / ('loc%d.%s.out' % (i, name))
+        got = outcome(fd, v, q, **kw)
+        data = q.read_bytes().hex() if q.exists() else None
+        q2 = os.path.join(work, 'loc%d.%s.out2' % (i, name))
+        got2 = outcome(fd, v, q2, **kw)
+        data2 = open(q2, 'rb').read().hex() if os.path.exists(q2) else None
+        back = outcome(load, q) if q.exists() else None
+        out['cases'].append({'kind': 'dump', 'fmt': name, 'value': v,
+                             'dumps': want, 'Path': [got[0], data, got[1]],
+                             'strpath': [got2[0], data2, got2[1]],
+                             'load_back': back})
+print(json.dumps(out))
+'''
+
+
+def run_locale_config(ctx):
+    """The same source/sink comparison in a process whose locale encoding
+    is not UTF-8 (LC_ALL=C, UTF-8 mode off): what a Path is read and written
+    as must not depend on it - YAML and JSON files are Unicode text in a
+    UTF encoding whatever the user's locale is."""
+    import subprocess
+    import sys
+    import json as _json
+    work = os.path.dirname(workfile())
+    envv = dict(os.environ)
+    envv.update({'PYTHONUTF8': '0', 'PYTHONCOERCECLOCALE': '0',
+                 'LC_ALL': 'C', 'LANG': 'C', 'PYTHONIOENCODING': 'utf-8'})
+    try:
+        r = subprocess.run([sys.executable, '-c', LOCALE_SCRIPT, env.REPO,
+                            work], env=envv, capture_output=True, text=True,
+                           timeout=300, encoding='utf-8')
+        out = _json.loads(r.stdout)
+    except Exception as e:      # noqa
+        ctx.note('locale configuration run failed: %r' % (e,))
+        return
+    if out['encoding'].lower().replace('-', '') in ('utf8',):
+        ctx.note('no non-UTF-8 locale available')
+        return
+    ctx.count('locale_config_runs')
+    for c in out['cases']:
+        ctx.count('locale_config_cases')
+        case = {'kind': 'locale', 'case': c}
+        if c['kind'] == 'load':
+            for k in ('Path', 'binfile'):
+                if c[k] != c['str']:
+                    ctx.violation(
+                        'C12 load outcome-differs source=%s vs str '
+                        'non-utf8-locale (%s vs %s)' % (
+                            k, c[k][0] if c[k][0] == 'ok' else c[k][1],
+                            c['str'][0] if c['str'][0] == 'ok'
+                            else c['str'][1]),
+                        'locale encoding %s, document %r: str gives %r, %s '
+                        'gives %r' % (out['encoding'], c['doc'], c['str'],
+                                      k, c[k]), case)
+        else:
+            want = c['dumps']
+            for k in ('Path', 'strpath'):
+                st, data, res = c[k]
+                if want[0] != 'ok':
+                    continue
+                if st != 'ok':
+                    ctx.violation(
+                        'C12 dump sink=%s raised %s non-utf8-locale' % (
+                            k, res),
+                        'locale encoding %s, %s dump of %r: dumps gives %r '
+                        'but writing to a %s raised %s' % (
+                            out['encoding'], c['fmt'], c['value'], want[1],
+                            k, res), case)
+                elif bytes.fromhex(data) != want[1].encode('utf-8'):
+                    ctx.violation(
+                        'C12 dump sink=%s bytes-differ-from-utf8-of-dumps '
+                        'non-utf8-locale' % k,
+                        'locale encoding %s, %s dump of %r: dumps gives %r, '
+                        'file holds %r' % (out['encoding'], c['fmt'],
+                                           c['value'], want[1],
+                                           bytes.fromhex(data)), case)
+            if c['load_back'] and c['load_back'] != ['ok', c['value']]:
+                ctx.violation(
+                    'C12 load-of-dumped-file differs non-utf8-locale',
+                    'locale encoding %s: %r dumped to a Path (%s) and loaded '
+                    'from it gives %r' % (out['encoding'], c['value'],
+                                          c['fmt'], c['load_back']), case)
+        ctx.case(['locale', c], True)
 
 
 def short_d(d):
@@ -524,6 +709,29 @@ def shard(ctx):
                 run_load(ctx, {'classes': [],
                                'doc_type': ['dict', 'str', 'str']}, s,
                          'newline')
+        if ctx.shard == 0:
+            run_locale_config(ctx)
+        # documents given as bytes that are no (or unusual) Unicode text
+        odd = [b'x: \xff\xfe', b'x: caf\xe9\n', b'\xff', b'\xfe\xff\x00',
+               b'k: v\n\x80', b'\xc3', b'a: "\xed\xa0\x80"\n',
+               'x: caf\u00e9\n'.encode('utf-16-le'),
+               'x: caf\u00e9\n'.encode('utf-16-be'),
+               b'\xff\xfe' + 'x: 1\n'.encode('utf-16-be'),
+               'x: caf\u00e9\n'.encode('utf-32'), b'x: 1\n\x00',
+               b'', b'\xef\xbb\xbf', b'x: ok\n', b'\xef\xbb\xbfx: ok\n',
+               'x: \u20ac\n'.encode('utf-16'), b'x: "\\xff"\n']
+        for i, data in enumerate(odd):
+            if ctx.mine(i):
+                for dt in ('any', ['dict', 'str', 'any'], 'str'):
+                    run_load_bytes(ctx, {'classes': [], 'doc_type': dt},
+                                   data, 'odd-bytes')
+        for _ in range(ctx.budget(300, 4000)):
+            base = rng.choice([b'x: caf\xc3\xa9\n', b'- a\n- b\n',
+                               b'k: "v"\n', 'x: \u00e9\n'.encode('utf-16')])
+            ba = bytearray(base)
+            for _ in range(rng.randint(1, 2)):
+                ba[rng.randrange(len(ba))] = rng.randrange(128, 256)
+            run_load_bytes(ctx, spec0, bytes(ba), 'corrupted-bytes')
         for _ in range(ctx.budget(600, 8000)):
             v = plain.rand_plain(rng, depth=3, classes=('look', 'uni', 'json'),
                                  finite=True, dates=True)
@@ -548,6 +756,10 @@ def replay(ctx, case):
     try:
         if case['kind'] == 'load':
             run_load(ctx, case['spec'], case['text'])
+        elif case['kind'] == 'locale':
+            run_locale_config(ctx)
+        elif case['kind'] == 'load_bytes':
+            run_load_bytes(ctx, case['spec'], bytes.fromhex(case['hex']))
         else:
             m = H.model_of(case['spec'])
             jo = case.get('json_opts')
